@@ -6,7 +6,8 @@ import test_enc_pm as gen
 PID = "C04"
 TRUSTED = ["spec S_Pm.v (LZ77 + move-to-front semantics, pm1/pm2 serialisers, wf predicates) run extracted", "C driver harness/c/drv_dec.c"]
 ASSUMPTIONS = ["valid stream = serialisation of a description satisfying wf_pm1 / wf_pm2",
-               "round-trip decided by the direct oracle and the correspondence; see Properties_C04.v for what is proved"]
+               "theorems pm2_roundtrip / pm1_roundtrip / pm1_zero_extension are about the models Pm2.v / Pm1.v; the tie to the C is "
+               "this run's correspondence (C output = spec expansion = model output); pm1 outputs below 2^32 bytes"]
 
 
 def run(ctx):
